@@ -7,8 +7,8 @@
  *
  * fds:   primary slot at fd 20, kind chosen first: pipe read end / pipe write end /
  *        AF_UNIX stream socket / TCP loopback socket;   secondary slot: AF_UNIX at fd 70.
- * ops:   toggle one of 8 (6 without ET) events on the primary fd:
- *           R, W, R|W, R|CLOSED (persistent LT), one-shot R, K = persistent R whose callback
+ * ops:   toggle one of 9 (7 without ET) events on the primary fd:
+ *           R, W, R|W, R|CLOSED, CLOSED alone (persistent LT), one-shot R, K = persistent R whose callback
  *           event_del()s every other event on its fd, ET R, ET W (epoll only, never mixed with LT)
  *        environment on the primary fd (as far as the kind allows): peer writes a byte, drain,
  *           fill the send buffer, peer drains it, peer shutdown(SHUT_WR), peer close, RST
@@ -24,7 +24,8 @@
  * OUT|HUP|ERR, closed on RDHUP|HUP.
  *   - a callback runs only for an event that is added, at most once per iteration, with
  *     flags != 0 and flags ⊆ requested ∩ holding (EV_ET may be echoed to ET events)
- *   - LT: an added event with requested ∩ holding ∩ backend-supported != 0 must run
+ *   - LT: an added event with requested ∩ holding ∩ backend-supported != 0 must run (for
+ *     'closed' the obligation needs POLLRDHUP; a bare POLLHUP only permits EV_CLOSED)
  *     (unless another callback of the same iteration deleted it first)
  *   - ET: runs only if something happened on its fd since the previous wait (environment
  *     op or a registration change), and must run when the harness made one of its
@@ -43,15 +44,15 @@ static const int env_of_kind[K_N][7] = {
 	{ E_WR, E_DRAIN, E_CLOSE, -1 }, { E_FILL, E_UNFILL, E_CLOSE, -1 },
 	{ E_WR, E_DRAIN, E_FILL, E_UNFILL, E_SHUT, E_CLOSE, -1 }, { E_WR, E_DRAIN, E_SHUT, E_CLOSE, E_RST, -1 } };
 
-#define NT 8
+#define NT 9
 static const struct { short ev; const char *name; int et, killer; } T[NT] = {
 	{ EV_READ | EV_PERSIST, "R", 0, 0 }, { EV_WRITE | EV_PERSIST, "W", 0, 0 }, { EV_READ | EV_WRITE | EV_PERSIST, "RW", 0, 0 },
-	{ EV_READ | EV_CLOSED | EV_PERSIST, "RC", 0, 0 }, { EV_READ, "R1", 0, 0 }, { EV_READ | EV_PERSIST, "K", 0, 1 },
+	{ EV_READ | EV_CLOSED | EV_PERSIST, "RC", 0, 0 }, { EV_CLOSED | EV_PERSIST, "C", 0, 0 }, { EV_READ, "R1", 0, 0 }, { EV_READ | EV_PERSIST, "K", 0, 1 },
 	{ EV_READ | EV_ET | EV_PERSIST, "etR", 1, 0 }, { EV_WRITE | EV_ET | EV_PERSIST, "etW", 1, 0 } };
 #define NSEC 2                      /* secondary slot: templates 0 (R) and 2 (RW) */
-static const int sec_tmpl[NSEC] = { 0, 2 };
+static const int sec_tmpl[NSEC] = { 0, 2 };   /* indices into T[] */
 
-struct slot { int kind, fd, peer, peer_open, has_data, full, shut, activity; short holds; int act_at_wait; };
+struct slot { int kind, fd, peer, peer_open, has_data, full, shut, activity; short holds, holds_must, revents; int act_at_wait; };
 struct evm { struct event ev; int slot, tmpl, added, at_wait, fired, deleted_in_iter; unsigned seq; short pending_edge, flags; };
 
 #define LISTEN_FD 90
@@ -72,16 +73,25 @@ static void user_handler(int sig) { (void)sig; n_user_handler++; }
 static void fl(short f, char *b) { sprintf(b, "%s%s%s%s", f & EV_READ ? "R" : "", f & EV_WRITE ? "W" : "", f & EV_CLOSED ? "C" : "", f & EV_ET ? "e" : ""); if (!*b) strcpy(b, "-"); }
 
 /* ---- independent readiness probe --------------------------------------- */
-static short probe(int fd)
+/* may: what a callback is allowed to name (closed also on plain POLLHUP, DESIGN Appendix A);
+ * must: what obliges a level-triggered event to run — for "closed" only POLLRDHUP, the
+ * kernel's own early-close signal (a pipe that lost its writer says POLLHUP, never RDHUP). */
+static short last_revents;
+static short probe2(int fd, short *must)
 {
 	struct pollfd p = { fd, POLLIN | POLLOUT | POLLRDHUP, 0 }; short h = 0;
+	if (must) *must = 0;
+	last_revents = 0;
 	if (__real_poll(&p, 1, 0) < 0) { mc_fail("harness:probe", "poll: %s", strerror(errno)); return 0; }
 	if (p.revents & POLLNVAL) { mc_fail("harness:probe", "fd %d not open", fd); return 0; }
+	last_revents = p.revents;
 	if (p.revents & (POLLIN | POLLHUP | POLLERR)) h |= EV_READ;
 	if (p.revents & (POLLOUT | POLLHUP | POLLERR)) h |= EV_WRITE;
+	if (must) *must = h | ((p.revents & POLLRDHUP) ? EV_CLOSED : 0);
 	if (p.revents & (POLLRDHUP | POLLHUP)) h |= EV_CLOSED;
 	return h;
 }
+static short probe(int fd) { return probe2(fd, NULL); }
 /* TCP loopback is the only asynchronous transport here: wait (real time, bounded)
  * until the expected poll bits show up, so that the probe and the backend's wait
  * look at a settled socket. */
@@ -128,7 +138,16 @@ bad:
 	mc_fail("harness:open-slot", "%s: %s", kind_name[s->kind], strerror(errno));
 	return -1;
 }
-static void close_slot(int i) { close(S[i].fd); if (S[i].peer_open) close(S[i].peer); S[i].peer_open = 0; }
+static void close_slot(int i)
+{
+	if (S[i].kind == K_TCP) {
+		/* abortive close: thousands of executions per second must not pile up TIME_WAIT sockets */
+		struct linger l = { 1, 0 };
+		setsockopt(S[i].fd, SOL_SOCKET, SO_LINGER, &l, sizeof l);
+		if (S[i].peer_open) setsockopt(S[i].peer, SOL_SOCKET, SO_LINGER, &l, sizeof l);
+	}
+	close(S[i].fd); if (S[i].peer_open) close(S[i].peer); S[i].peer_open = 0;
+}
 
 /* ---- ET bookkeeping around environment ops --------------------------------- */
 static void env_op(int i, int op)
@@ -189,10 +208,13 @@ static void end_iteration(void)
 		fl(interest, a); fl(s->holds, b);
 		if (!T[m->tmpl].et) {
 			MC_COUNT("c04_lt_event_iterations");
-			if (interest & s->holds & supported) {
+			if (interest & s->holds_must & supported) {
 				MC_COUNT("c04_lt_must_fire");
-				if (!m->fired && !m->deleted_in_iter)
-					mc_fail(K("lt-not-reported"), "%s fd: event %s (wants %s) did not run although %s holds", kind_name[s->kind], T[m->tmpl].name, a, b);
+				if (!m->fired && !m->deleted_in_iter) {
+					/* key names the event and the class of the fd's state, so that one known case cannot hide another */
+					char kk[64]; snprintf(kk, sizeof kk, "lt-not-reported/%s/%s", T[m->tmpl].name, s->revents & POLLERR ? "fd-in-error" : s->revents & POLLHUP ? "fd-hung-up" : "fd-ok");
+					mc_fail(K(kk), "%s fd: event %s (wants %s) did not run although %s holds (poll revents %#x)", kind_name[s->kind], T[m->tmpl].name, a, b, (unsigned)s->revents);
+				}
 			}
 		} else {
 			MC_COUNT("c04_et_event_iterations");
@@ -214,7 +236,7 @@ static void prewait(int kind, void *a, long n, int64_t timeout_us)
 	(void)kind; (void)a; (void)n; (void)timeout_us;
 	end_iteration();
 	n_waits++; n_iters++; ops_since_wait = 0; iter_open = 1;
-	for (int i = 0; i < 2; i++) { S[i].holds = probe(S[i].fd); S[i].act_at_wait = S[i].activity; S[i].activity = 0; }
+	for (int i = 0; i < 2; i++) { S[i].holds = probe2(S[i].fd, &S[i].holds_must); S[i].revents = last_revents; S[i].act_at_wait = S[i].activity; S[i].activity = 0; }
 	for (int e = 0; e < NEV; e++) { E[e].at_wait = E[e].added; E[e].fired = 0; E[e].deleted_in_iter = 0; E[e].flags = 0; }
 	MC_COUNT("c04_waits_probed");
 }
